@@ -61,6 +61,7 @@ def _jsonable(v):
 
 
 def replay_concrete(h, params, values, want=None):
+    params = {k: v for k, v in params.items() if k != "shard"}
     """run the harness body on plain numpy / unpatched kawin with concrete inputs.
     returns dict(violated=[(name,occ)], exception=repr|None, rejected=bool)"""
     out = {"violated": [], "exception": None, "exc_type": None, "rejected": False, "obligations": 0}
@@ -101,6 +102,7 @@ def scaled_candidates(model, limit=160):
 
 
 def write_replay(h, params, tier, obligation, occ, values, kind):
+    params = {k: v for k, v in params.items() if k != "shard"}
     os.makedirs(REPLAYS, exist_ok=True)
     rec = {"property": h.prop, "harness": h.id, "params": params, "obligation": obligation, "occ": occ,
            "kind": kind, "inputs": {k: _jsonable(v) for k, v in values.items()}}
@@ -119,11 +121,13 @@ def run_harness(h, params, tier, seed):
     opts = dict(h.opts)
     opts.update(params.get("_opts", {}))
     bparams = {k: v for k, v in params.items() if not k.startswith("_")}
+    if opts.get("shard") is not None:
+        bparams = dict(bparams); bparams["shard"] = "%d/%d" % (opts["shard"][0], 2 ** opts["shard"][1])
     res = {"harness": h.id, "params": bparams, "paths": 0, "paths_reachable": 0, "paths_aborted": 0, "paths_exception": 0,
            "obligations": 0, "discharged": 0, "inconclusive": 0, "candidates": 0, "violations": [], "nonrepro": [],
            "inconclusive_list": [], "solver_s": 0.0, "branch_s": 0.0, "validated": 0, "validation_errors": [],
            "samples": [], "axioms": [], "how": {}, "harness_errors": [], "budget_exhausted": False, "by_name": {}}
-    body = lambda c: h.body(c, **bparams)
+    body = lambda c: h.body(c, **{k: v for k, v in bparams.items() if k != "shard"})
     ex = Explorer(body, opts=opts, max_paths=opts.get("max_paths", 600), max_depth=opts.get("max_depth", 80),
                   deadline=t_start + budget)
     mods = symnp.kawin_modules()
